@@ -220,8 +220,6 @@ type env struct {
 	conns   []net.Conn
 	start   time.Time
 	elapsed time.Duration // model time since start
-	drift   time.Duration // worst lateness of a time-sensitive call
-	timed   bool
 }
 
 func newEnv(backend string, ttls []int) (*env, error) {
@@ -332,18 +330,7 @@ func (e *env) endBridge(n int, tid string) string {
 	return "ok"
 }
 
-// touch records how late (in real time) a time-sensitive call runs compared with model time.
-func (e *env) touch() {
-	if !e.timed {
-		return
-	}
-	if d := time.Since(e.start) - e.elapsed; d > e.drift {
-		e.drift = d
-	}
-}
-
 func (e *env) sleep(ms int) {
-	e.timed = true
 	e.elapsed += time.Duration(ms) * time.Millisecond
 	if d := time.Until(e.start.Add(e.elapsed)); d > 0 {
 		time.Sleep(d)
@@ -420,16 +407,13 @@ func (e *env) exec(tok string) string {
 		}
 		st := &tunnel.WaitingState{TunnelID: r.tid, MappingID: r.mp, SecretKey: r.sec, SourceNodeID: r.src,
 			SourceClientID: r.sc, TargetClientID: r.tc, TargetHost: r.host, TargetPort: r.port}
-		e.touch()
 		if err := e.tables[n].RegisterWaitingTunnel(ctx, st); err != nil {
 			return errTok(err)
 		}
 		return "ok"
 	case "look":
 		n := node()
-		e.touch()
 		st, err := e.tables[n].LookupWaitingTunnel(ctx, uh(f[2]))
-		e.touch()
 		if err != nil {
 			return errTok(err)
 		}
@@ -453,7 +437,6 @@ func (e *env) exec(tok string) string {
 		e.ccs[n].mu.Unlock()
 		a, b := net.Pipe()
 		e.conns = append(e.conns, a, b)
-		e.touch()
 		if err := sm.VerifStartSourceBridge(&packet.TunnelOpenRequest{TunnelID: r.tid, MappingID: r.mp, SecretKey: r.sec}, a); err != nil {
 			return errTok(err)
 		}
@@ -480,14 +463,12 @@ func (e *env) exec(tok string) string {
 		return "skip"
 	case "rega":
 		n := node()
-		e.touch()
 		if err := e.tables[n].RegisterNodeAddress(uh(f[2]), uh(f[3])); err != nil {
 			return errTok(err)
 		}
 		return "ok"
 	case "geta":
 		n := node()
-		e.touch()
 		a, err := e.tables[n].GetNodeAddress(uh(f[2]))
 		if err != nil {
 			return errTok(err)
@@ -497,9 +478,8 @@ func (e *env) exec(tok string) string {
 	panic("unknown event " + tok)
 }
 
-const driftTolerance = 30 * time.Millisecond
-
-// runCase executes one case string; ok=false: real time ran too far ahead of model time.
+// runCase executes one case string; ok=false: the measured timeline does not agree with the model's
+// clock with the required margins (see timeline.go) — the run must not be judged.
 func runCase(caseStr string) (obs string, ok bool) {
 	toks := strings.Fields(caseStr)
 	if len(toks) > 0 && toks[0] == "X" {
@@ -534,10 +514,13 @@ func runCase(caseStr string) (obs string, ok bool) {
 		}
 		defer e.close()
 		var out []string
+		spans := make([]span, 0, len(toks)-2)
 		for _, t := range toks[2:] {
+			before := time.Since(e.start)
 			out = append(out, e.exec(t))
+			spans = append(spans, span{before, time.Since(e.start)})
 		}
-		ch <- result{strings.Join(out, " "), e.drift <= driftTolerance}
+		ch <- result{strings.Join(out, " "), realConsistent(ttls, toks[2:], spans)}
 	}()
 	select {
 	case r := <-ch:
@@ -580,7 +563,7 @@ func (r *runner) runAll(jobs []job, workers int) {
 				if i >= len(jobs) {
 					return
 				}
-				for attempt := 0; attempt < 6; attempt++ {
+				for attempt := 0; attempt < 5; attempt++ {
 					o, ok := runCase(jobs[i].cs)
 					obs[i], good[i] = o, ok
 					if ok {
@@ -595,8 +578,8 @@ func (r *runner) runAll(jobs []job, workers int) {
 	}
 	wg.Wait()
 	for i, j := range jobs {
-		if !good[i] && !r.replay {
-			r.skipped++ // the machine was too slow for this timed case on every attempt: not judged
+		if !good[i] {
+			r.skipped++ // no attempt had a timeline consistent with the model's clock: dropped, never reported
 			continue
 		}
 		cs := j.cs
@@ -660,7 +643,7 @@ func main() {
 	if !*noGen {
 		untimed, timed := gen(vc.NewRand(*seed), *tier == "thorough")
 		r.runAll(untimed, 8)
-		r.runAll(timed, 24)
+		r.runAll(timed, 32)
 	}
-	out.Finish(*statsPath, map[string]any{"timed_cases_skipped_machine_too_slow": r.skipped, "timed_case_retries": r.retried})
+	out.Finish(*statsPath, map[string]any{"dropped_timing_unstable": r.skipped, "timing_retries": r.retried})
 }
